@@ -74,6 +74,7 @@ def _job(spec):
             replay = cf.Replay(binding, feat=c.get("FeatSets") or c.get("Feat", {}), checks=spec.get("checks", cf.ALL_CHECKS),
                                clone_every=spec.get("clone_every", 1))
             replay.record_outputs = bool(spec.get("cross"))
+            replay.query_after = spec.get("query_after")
             replay.caller_check = bool(spec.get("caller_check"))
             start = time.time()
             replay.run(result.edges)
